@@ -70,6 +70,8 @@ func NewSignerAndVerifier(cfg Config) (*Signer, *Verifier, error) {
 		}, &Verifier{
 			IrmaConfig: irmaConfig,
 			Templates:  contract.StandardContractTemplates,
+			// Production is set from the node's strict mode: only attributes from the production scheme (pbdf) are accepted then
+			strictMode: cfg.Production,
 		}, nil
 }
 
